@@ -24,7 +24,7 @@ def c04_plan(tier):
         "mc": G.consts(MaxVer=6, Features={"leave", "compact", "lose", "expire"}),
         "mc2": G.consts(Node={"a", "b", "c"}, MaxVer=3, MaxSlots=1, Writers={"a"},
                         Features={"leave", "lose", "expire"}, Budgets={99}),
-        "covers": [G.consts(MaxVer=5, MaxSlots=2, Features={"leave", "compact", "lose", "expire"})],
+        "covers": [G.consts(MaxVer=4, MaxSlots=2, Features={"leave", "compact", "lose", "expire"})],
         "sim": (G.consts(Node={"a", "b", "c"}, MaxVer=8, MaxSlots=4, Writers={"a", "c"},
                          Features={"leave", "compact", "lose", "expire", "dup", "liveness", "shuffle"},
                          Budgets={2, 3, 4, 99}), 2400, 70),
